@@ -157,6 +157,7 @@ func runC01(r *Run) {
 		initial = 5 + t.Intn(36, "big")
 	}
 	s := r.NewSched()
+	s.LagPct = []int{0, 0, 15}[t.Intn(3, "lag-pct")] // F-lag is safe here: no select-based blocking in these stacks
 	var inner core.Strategy
 	var simple *strategy.SimpleStrategy
 	var precise *strategy.PreciseStrategy
